@@ -80,6 +80,17 @@ theorem glob_denotes (s : List Char) (h : validGlob s = true) :
       subst e0 e1 e2 e3
       exact (shape_interval o0 o1 o2 o3 w0 w1 w2 w3 hs a ha32).2 hm
 
+/-- what `glob_to_iptuple / glob_to_iprange` hand to `IPAddress(...)` after `valid_glob`: always
+    four plain decimal octets 0..255 without leading zeros (so reading them as a decimal dotted
+    quad, as the model does, is what `inet_aton` does too — no octal, no hex, no short forms) -/
+theorem glob_conv_total (s : List Char) (h : validGlob s = true) :
+    ∃ t0 t1 t2 t3 u0 u1 u2 u3,
+      (startEndStrings s).1 = ['.'].intercalate [t0, t1, t2, t3] ∧
+      (startEndStrings s).2 = ['.'].intercalate [u0, u1, u2, u3] ∧
+      ∀ t ∈ [t0, t1, t2, t3, u0, u1, u2, u3], plainNum t = true ∧ numVal t ≤ 255 := by
+  obtain ⟨os, hp⟩ := (validGlob_iff_parse s).1 h
+  exact tokens_plain s os hp
+
 example : globToIptuple "192.0.2-3.*".toList = .ok (3221225984, 3221226495) := by decide +kernel
 example : GlobMatches "192.0.2-3.*".toList 3221226000 :=
   ⟨.lit 192, .lit 0, .hyp 2 3, .star, by decide +kernel, by decide,
